@@ -271,6 +271,45 @@ def run_api(spec, acc):
                 if real(root, wd_sent) != real(wd_abs):
                     acc.violation(f"C20|api|step workdir|{here}|{wd}",
                                   {"here": here, "workdir": wd, "sent": wd_sent}, None)
+        # call() with an arguments file: the file that is written and announced as an output of
+        # the calling step must be the file the new step gets as input and on its command line
+        for wd in (".", "a", "./a/", "..", "a/..", "a/b"):
+            wd_abs = os.path.join(caller_dir, wd)
+            if not real(wd_abs).startswith(os.path.realpath(root)) or not os.path.isdir(wd_abs):
+                continue
+            for af in ("args.json", "./args.json", "b/../args.json"):
+                rec = _Recorder()
+                su_api.get_rpc_client = lambda path=None, rec=rec: rec
+                su_api._AMEND_HISTORY = {"inp": set(), "env": set(), "out": set(), "vol": set()}
+                su_api._HOLD_STATE = su_api._HoldState()
+                with open(os.path.join(wd_abs, "s.py"), "w") as fh:
+                    fh.write("#!/usr/bin/env python3\n")
+                before = set(os.listdir(wd_abs)) if os.path.isdir(wd_abs) else set()
+                try:
+                    su_api.call("./s.py", "fn", args_file=af, workdir=wd, x=1)
+                except Exception as exc:  # noqa: BLE001
+                    acc.violation(f"C20|api-raises|call|{here}|{wd}|{af}", {"error": repr(exc)}, None)
+                    continue
+                acc.evaluations += 1
+                if wd != "." or here != ".":
+                    acc.nontrivial.add(h8(["call", here, wd, af]))
+                amended = [str(x) for c in rec.calls if c[0] == "amend_step" for x in c[1][3]]
+                defined = [c for c in rec.calls if c[0] == "define_step"]
+                inps = [str(x) for x in defined[0][1][2]] if defined else []
+                want = real(wd_abs, af)
+                written = os.path.exists(want)
+                ok = (len(amended) == 1 and amended[0] in inps and real(root, amended[0]) == want and written)
+                if not ok:
+                    acc.violation(f"C20|api|call args_file|{here}|{wd}",
+                                  {"here": here, "workdir": wd, "args_file": af, "announced_as_output": amended,
+                                   "inputs_of_the_new_step": inps, "file_the_new_step_will_read": want,
+                                   "written_there": written}, None)
+                for name in ("args.json",):
+                    for d in (wd_abs, caller_dir):
+                        try:
+                            os.remove(os.path.join(d, name))
+                        except OSError:
+                            pass
         # glob(): the pattern and the matches travel together; the director records the matches
         # under the translated pattern and scans again with it at the next start
         from stepup.core.nglob import NamedGlob
